@@ -95,9 +95,33 @@ def newEntry (slots : List (List Nat)) (units sfn : List Nat) : LfnEntry :=
   ⟨sfn, units, findFree slots (numParts units.length + 1),
     findFree slots (numParts units.length + 1) + (numParts units.length + 1)⟩
 
-theorem addEntry_dir (units sfn : List Nat) (child : Node) (slots : List (List Nat)) (ch : List (LfnEntry × Node)) :
+/-- in a directory of well-formed shape the child hangs on the entry `write_entry` makes -/
+theorem addKey_eq {slots : List (List Nat)} (hs : Shape slots) (units sfn : List Nat)
+    (h1 : 1 ≤ units.length) (h255 : units.length ≤ 255) (hu : ∀ x ∈ units, x < 65536)
+    (hnz : ∀ x ∈ units, x ≠ 0) (hsfn : slotClass sfn = .file) :
+    addKey slots units sfn = newEntry slots units sfn := by
+  obtain ⟨L1, L2, _, e2, e3, _, _⟩ := writeEntry_insert true slots units sfn hs h1 h255 hu hnz hsfn
+  have l2 : listing (writeEntry slots units sfn) = L1 ++ newEntry slots units sfn :: L2 := e2
+  unfold addKey
+  rw [l2, List.find?_append]
+  have hn : L1.find? (fun e =>
+      e.endIdx == findFree slots (numParts units.length + 1) + (numParts units.length + 1)) = none := by
+    rw [List.find?_eq_none]
+    intro e he
+    have := e3 e he
+    simp only [beq_iff_eq]
+    omega
+  rw [hn]
+  simp [newEntry]
+
+theorem addEntry_dir {slots : List (List Nat)} (hs : Shape slots) (units sfn : List Nat) (child : Node)
+    (ch : List (LfnEntry × Node))
+    (h1 : 1 ≤ units.length) (h255 : units.length ≤ 255) (hu : ∀ x ∈ units, x < 65536)
+    (hnz : ∀ x ∈ units, x ≠ 0) (hsfn : slotClass sfn = .file) :
     addEntry units sfn child (.dir slots ch) =
-      .dir (writeEntry slots units sfn) (ch ++ [(newEntry slots units sfn, child)]) := rfl
+      .dir (writeEntry slots units sfn) (ch ++ [(newEntry slots units sfn, child)]) := by
+  simp only [addEntry]
+  rw [addKey_eq hs units sfn h1 h255 hu hnz hsfn]
 
 theorem addEntry_dirOk {up : Char → List Char} {slots : List (List Nat)} {ch : List (LfnEntry × Node)}
     (hd : DirOk up slots ch) (units sfn : List Nat) (child : Node)
@@ -140,15 +164,15 @@ theorem addEntry_dirOk {up : Char → List Char} {slots : List (List Nat)} {ch :
     · exact n3 _ h _ (by simp) rfl
     · exact (List.nodup_cons.1 n2).1 h
 
-theorem abs_addEntry (units sfn : List Nat) (child : Node) (n : Node) (name : String)
-    (hn : ∀ s c, n = .dir s c → entryName (newEntry s units sfn) = name) :
-    abs (addEntry units sfn child n) = Spec.insertChild name (abs child) (abs n) := by
-  cases n with
-  | file c => simp [addEntry, abs, Spec.insertChild]
-  | dir s c =>
-    rw [addEntry_dir, abs_dir, abs_dir, Spec.insertChild, List.map_append]
-    simp only [List.map_cons, List.map_nil]
-    rw [hn s c rfl]
+theorem abs_addEntry {slots : List (List Nat)} (hs : Shape slots) (units sfn : List Nat) (child : Node)
+    (ch : List (LfnEntry × Node)) (name : String)
+    (h1 : 1 ≤ units.length) (h255 : units.length ≤ 255) (hu : ∀ x ∈ units, x < 65536)
+    (hnz : ∀ x ∈ units, x ≠ 0) (hsfn : slotClass sfn = .file)
+    (hn : entryName (newEntry slots units sfn) = name) :
+    abs (addEntry units sfn child (.dir slots ch)) = Spec.insertChild name (abs child) (abs (.dir slots ch)) := by
+  rw [addEntry_dir hs units sfn child ch h1 h255 hu hnz hsfn, abs_dir, abs_dir, Spec.insertChild, List.map_append]
+  simp only [List.map_cons, List.map_nil]
+  rw [hn]
 
 /-! ## `delEntry` -/
 
